@@ -9,6 +9,10 @@
      sigs, pres   witness ids (key id / image id, -1 = valid for nothing)
      v     the verdict of the real Verify (TRUE = accepted)
      dec   the real decoder accepted the encoding of p
+   Parameters of the value classes BIG / NEG (Policy.tla) arrive as those
+   numbers; the harness ran the line with one member of the class (every
+   member over the run) - the line must keep h, t and its witness lists
+   strictly inside the classes (INSIDE, else SPECBUG).
    The line is allowed iff v = Meaning and dec = Decodable.  The transcription
    VerifyAlg is evaluated as well; a disagreement between the two readings of
    the specification is reported as SPECBUG (never a verdict on the code).   *)
@@ -20,6 +24,9 @@ Line(l) ==
   LET t == Trace[l]  p == t.p  c == Ctx(t.h, t.t)
       m == MeaningG(p, c, t.sigs, t.pres) IN
   /\ IF VerifyAlg(p, c, t.sigs, t.pres) = m THEN TRUE ELSE PrintT("@@SPECBUG " \o ToString(l))
+  /\ IF /\ t.h + 1 < BIG /\ t.t + 1 < BIG /\ t.t - 1 > NEG /\ t.h >= 0
+        /\ Len(t.sigs) + 1 < BIG /\ Len(t.pres) + 1 < BIG /\ CountNodes(p) + 1 < BIG
+     THEN TRUE ELSE PrintT("@@SPECBUG " \o ToString(l))
   /\ Check(t.v = m, l, IF m THEN "Verify rejects a satisfied policy" ELSE "Verify accepts an unsatisfied policy")
   /\ Check(~Encodable(p) \/ t.dec = Decodable(p), l, "decoder depth limit")
 
